@@ -27,6 +27,8 @@ func checkC17(c *Ctx) {
 	ruleExternalReset(c, dv, dv.fn["Panic"], "R17.4")
 	ruleFrameUnderLocks(c, dv)
 	ruleLedOffset(c, dv)
+	ruleLayerOrder(c, dv)
+	c.MinCount("R17.7", 8)
 	c.MinCount("R17.1", 4)
 	c.MinCount("R17.2", 4)
 	c.MinCount("R17.3", 1)
@@ -638,4 +640,414 @@ func ruleLedOffset(c *Ctx, dv *dev) {
 	if !found {
 		c.Undec("R17.6", "device.handleOpenrgb/transposition-offset", c.P.Pos(fn.Pos()), "offset computation not found")
 	}
+}
+
+// ---- R17.7 layer precedence of the frame ---------------------------------------------------------------------------
+//
+// The frame is painted by successive overwrites (painter's algorithm); which colour a key finally shows when several
+// things apply to it is decided by the ORDER of the layers.  The statement fixes part of that order: a mapped key shows
+// its pitch-class colour unless something sounds on it; a pitch sounding on MIDI input shows the external colour when it
+// is on the current channel and otherwise that channel's colour; a pitch sounding from the keyboard shows the active
+// colour.  Decided structurally: every LED write site of the refresh loop is classified by the colour it stores, and the
+// classes must be painted in the order  unavailable(reset) < pitch-class < channel colour < external(current channel),
+// pitch-class < active, everything < UpdateLEDs - where "A before B" means: in the refresh loop body with its back edge
+// removed, B's strongly connected component is reachable from A's and differs from it (two layers merged into one
+// inner loop are NOT ordered: the last writer then depends on iteration order, not on the layer).
+func ruleLayerOrder(c *Ctx, dv *dev) {
+	root := dv.fn["handleOpenrgb"]
+	pos := c.P.Pos(root.Pos())
+	rule := "R17.7"
+	// the refresh loop: the largest natural loop containing an UpdateLEDs call
+	var upd *ssa.Call
+	for _, b := range root.Blocks {
+		for _, in := range b.Instrs {
+			if call, ok := in.(*ssa.Call); ok {
+				if callee := call.Call.StaticCallee(); callee != nil && callee.Name() == "UpdateLEDs" && inCycle(b) {
+					upd = call
+				}
+			}
+		}
+	}
+	if !c.Require(upd != nil, rule, "device.handleOpenrgb/refresh-loop", "no UpdateLEDs call inside a loop") {
+		return
+	}
+	var header *ssa.BasicBlock
+	var body map[*ssa.BasicBlock]bool
+	for _, h := range root.Blocks {
+		for _, p := range h.Preds {
+			if !h.Dominates(p) {
+				continue
+			}
+			// natural loop of back edge p->h
+			lb := map[*ssa.BasicBlock]bool{h: true}
+			stack := []*ssa.BasicBlock{p}
+			for len(stack) > 0 {
+				x := stack[len(stack)-1]
+				stack = stack[:len(stack)-1]
+				if lb[x] {
+					continue
+				}
+				lb[x] = true
+				stack = append(stack, x.Preds...)
+			}
+			if lb[upd.Block()] && len(lb) > len(body) {
+				header, body = h, lb
+			}
+		}
+	}
+	if !c.Require(header != nil, rule, "device.handleOpenrgb/refresh-loop", "refresh loop not found") {
+		return
+	}
+	// SCCs of the body without edges into the header
+	succs := func(b *ssa.BasicBlock) []*ssa.BasicBlock {
+		var out []*ssa.BasicBlock
+		for _, s := range b.Succs {
+			if body[s] && s != header {
+				out = append(out, s)
+			}
+		}
+		return out
+	}
+	index, low, comp := map[*ssa.BasicBlock]int{}, map[*ssa.BasicBlock]int{}, map[*ssa.BasicBlock]int{}
+	onStack := map[*ssa.BasicBlock]bool{}
+	var st []*ssa.BasicBlock
+	idx, ncomp := 0, 0
+	var strong func(v *ssa.BasicBlock)
+	strong = func(v *ssa.BasicBlock) {
+		idx++
+		index[v], low[v] = idx, idx
+		st = append(st, v)
+		onStack[v] = true
+		for _, w := range succs(v) {
+			if index[w] == 0 {
+				strong(w)
+				if low[w] < low[v] {
+					low[v] = low[w]
+				}
+			} else if onStack[w] && index[w] < low[v] {
+				low[v] = index[w]
+			}
+		}
+		if low[v] == index[v] {
+			ncomp++
+			for {
+				w := st[len(st)-1]
+				st = st[:len(st)-1]
+				onStack[w] = false
+				comp[w] = ncomp
+				if w == v {
+					break
+				}
+			}
+		}
+	}
+	for _, b := range root.Blocks {
+		if body[b] && index[b] == 0 {
+			strong(b)
+		}
+	}
+	reach := func(a, b *ssa.BasicBlock) bool { // b reachable from a inside the body (no back edge of the refresh loop)
+		seen := map[*ssa.BasicBlock]bool{}
+		stack := []*ssa.BasicBlock{a}
+		for len(stack) > 0 {
+			x := stack[len(stack)-1]
+			stack = stack[:len(stack)-1]
+			if x == b {
+				return true
+			}
+			if seen[x] {
+				continue
+			}
+			seen[x] = true
+			stack = append(stack, succs(x)...)
+		}
+		return false
+	}
+	before := func(a, b *ssa.BasicBlock) bool { return comp[a] != comp[b] && reach(a, b) }
+
+	// LED write sites and their classes
+	type site struct {
+		class string
+		at    *ssa.BasicBlock // position in the refresh loop body
+		pos   string
+	}
+	var sites []site
+	var classify func(fn *ssa.Function, v ssa.Value, depth int) []string
+	classify = func(fn *ssa.Function, v ssa.Value, depth int) []string {
+		if depth > 4 {
+			return []string{"other"}
+		}
+		if _, ok := v.(*ssa.Const); ok {
+			return []string{"blank"}
+		}
+		if phi, ok := v.(*ssa.Phi); ok {
+			// a colour chosen by a condition: the site paints every one of the candidate layers
+			var out []string
+			for _, e := range phi.Edges {
+				out = append(out, classify(fn, e, depth+1)...)
+			}
+			return out
+		}
+		if prm, ok := v.(*ssa.Parameter); ok {
+			// a colour handed to a painting helper/closure: what its call sites pass
+			var out []string
+			idx := paramIndex(prm)
+			scan := func(f *ssa.Function) {
+				for _, b := range f.Blocks {
+					for _, in := range b.Instrs {
+						if ci, ok := in.(ssa.CallInstruction); ok && (ci.Common().StaticCallee() == fn || closureOf(ci.Common().Value) == fn) && idx >= 0 && idx < len(ci.Common().Args) {
+							out = append(out, classify(f, ci.Common().Args[idx], depth+1)...)
+						}
+					}
+				}
+			}
+			scan(root)
+			for _, af := range root.AnonFuncs {
+				scan(af)
+			}
+			for h := range dv.newHelpers() {
+				scan(h)
+			}
+			if len(out) == 0 {
+				return []string{"other"}
+			}
+			return out
+		}
+		s := NewFnView(c.P, fn).Term(v).String()
+		switch {
+		case strings.Contains(s, ".Colors.Unavailable"):
+			return []string{"unavailable"}
+		case strings.Contains(s, ".Colors.ActiveExternal"):
+			return []string{"external"}
+		case strings.Contains(s, ".Colors.Active"):
+			return []string{"active"}
+		case strings.Contains(s, ".Colors.C") || strings.Contains(s, ".Colors.Black") || strings.Contains(s, ".Colors.White") || strings.Contains(s, "shiftColor"):
+			return []string{"pitch-class"}
+		}
+		// a lookup in a local colour table indexed by a channel number
+		for i := 0; i < 4; i++ {
+			switch x := v.(type) {
+			case *ssa.UnOp:
+				if a, ok := x.X.(*ssa.Alloc); ok {
+					if w := wholeStore(a); w != nil {
+						v = w
+						continue
+					}
+				}
+			case *ssa.Extract:
+				v = x.Tuple
+				continue
+			case *ssa.Lookup:
+				if mt, ok := x.X.Type().Underlying().(*types.Map); ok {
+					if b, isB := mt.Key().Underlying().(*types.Basic); isB && b.Kind() == types.Uint8 && fieldLoadOfAny(x.X) == nil {
+						return []string{"channel-colour"}
+					}
+				}
+			}
+			break
+		}
+		return []string{"other"}
+	}
+	// an action-key LED: the LED index comes from a lookup keyed by a config.Action
+	isActionIndex := func(idx ssa.Value) bool {
+		seen := map[ssa.Value]bool{}
+		var rec func(v ssa.Value, depth int) bool
+		rec = func(v ssa.Value, depth int) bool {
+			if v == nil || seen[v] || depth > 10 {
+				return false
+			}
+			seen[v] = true
+			switch x := v.(type) {
+			case *ssa.Lookup:
+				if mt, ok := x.X.Type().Underlying().(*types.Map); ok {
+					if n, isN := mt.Key().(*types.Named); isN && n.Obj().Name() == "Action" {
+						return true
+					}
+				}
+				return rec(x.Index, depth+1)
+			case *ssa.Extract:
+				return rec(x.Tuple, depth+1)
+			case *ssa.Phi:
+				for _, e := range x.Edges {
+					if rec(e, depth+1) {
+						return true
+					}
+				}
+			case *ssa.Convert:
+				return rec(x.X, depth+1)
+			case *ssa.ChangeType:
+				return rec(x.X, depth+1)
+			case *ssa.UnOp:
+				if a, ok := x.X.(*ssa.Alloc); ok {
+					if w := wholeStore(a); w != nil {
+						return rec(w, depth+1)
+					}
+				}
+			}
+			return false
+		}
+		return rec(idx, 0)
+	}
+	isLedStore := func(in ssa.Instruction) (*ssa.Store, bool) {
+		stx, ok := in.(*ssa.Store)
+		if !ok {
+			return nil, false
+		}
+		ia, ok := stx.Addr.(*ssa.IndexAddr)
+		if !ok {
+			return nil, false
+		}
+		if sl, ok := ia.X.Type().Underlying().(*types.Slice); ok {
+			if n, ok := sl.Elem().(*types.Named); ok && n.Obj().Name() == "Color" {
+				return stx, true
+			}
+		}
+		return nil, false
+	}
+	// positions of a function's body in the refresh loop: the function itself (root) or the blocks of its call sites
+	var positionsOf func(fn *ssa.Function, depth int) []*ssa.BasicBlock
+	positionsOf = func(fn *ssa.Function, depth int) []*ssa.BasicBlock {
+		if depth > 3 {
+			return nil
+		}
+		var out []*ssa.BasicBlock
+		var scan func(f *ssa.Function)
+		scan = func(f *ssa.Function) {
+			for _, b := range f.Blocks {
+				for _, in := range b.Instrs {
+					ci, ok := in.(ssa.CallInstruction)
+					if !ok {
+						continue
+					}
+					if ci.Common().StaticCallee() == fn || closureOf(ci.Common().Value) == fn {
+						if f == root {
+							if body[b] {
+								out = append(out, b)
+							}
+						} else {
+							out = append(out, positionsOf(f, depth+1)...)
+						}
+					}
+				}
+			}
+		}
+		scan(root)
+		for _, af := range root.AnonFuncs {
+			scan(af)
+		}
+		for h := range dv.newHelpers() {
+			scan(h)
+		}
+		return out
+	}
+	hosts := append([]*ssa.Function{root}, root.AnonFuncs...)
+	for h := range dv.newHelpers() {
+		hosts = append(hosts, h)
+	}
+	for _, fn := range hosts {
+		for _, b := range fn.Blocks {
+			for _, in := range b.Instrs {
+				stx, ok := isLedStore(in)
+				if !ok {
+					continue
+				}
+				ledIdx := stx.Addr.(*ssa.IndexAddr).Index
+				classes := classify(fn, stx.Val, 0)
+				if isActionIndex(ledIdx) {
+					classes = []string{"action"}
+				}
+				if fn == root {
+					if !body[b] {
+						continue // initialisation / the final red frame
+					}
+					for _, cl := range classes {
+						sites = append(sites, site{cl, b, c.P.Pos(stx.Pos())})
+					}
+					continue
+				}
+				// a store in a closure/helper: one site per call position; a colour parameter is classified per call
+				if prm, isParam := stx.Val.(*ssa.Parameter); isParam && !isActionIndex(ledIdx) {
+					idx := paramIndex(prm)
+					scanCalls := func(f *ssa.Function) {
+						for _, cb := range f.Blocks {
+							for _, cin := range cb.Instrs {
+								ci, ok := cin.(ssa.CallInstruction)
+								if !ok || !(ci.Common().StaticCallee() == fn || closureOf(ci.Common().Value) == fn) || idx < 0 || idx >= len(ci.Common().Args) {
+									continue
+								}
+								var ats []*ssa.BasicBlock
+								if f == root {
+									if body[cb] {
+										ats = []*ssa.BasicBlock{cb}
+									}
+								} else {
+									ats = positionsOf(f, 1)
+								}
+								for _, at := range ats {
+									for _, cl := range classify(f, ci.Common().Args[idx], 1) {
+										sites = append(sites, site{cl, at, c.P.Pos(ci.Pos())})
+									}
+								}
+							}
+						}
+					}
+					scanCalls(root)
+					for _, af := range root.AnonFuncs {
+						scanCalls(af)
+					}
+					for h := range dv.newHelpers() {
+						scanCalls(h)
+					}
+					continue
+				}
+				for _, at := range positionsOf(fn, 0) {
+					for _, cl := range classes {
+						sites = append(sites, site{cl, at, c.P.Pos(stx.Pos())})
+					}
+				}
+			}
+		}
+	}
+	byClass := map[string][]site{}
+	for _, s := range sites {
+		byClass[s.class] = append(byClass[s.class], s)
+	}
+	for _, need := range []string{"unavailable", "pitch-class", "channel-colour", "external", "active"} {
+		c.Check(len(byClass[need]) > 0, rule, "device.handleOpenrgb/layer("+need+")", pos, fmt.Sprintf("%d write site(s)", len(byClass[need])),
+			"no LED write of the "+need+" colour found in the refresh loop (layer missing or not recognised)")
+	}
+	order := [][2]string{{"unavailable", "pitch-class"}, {"pitch-class", "channel-colour"}, {"channel-colour", "external"}, {"pitch-class", "external"}, {"pitch-class", "active"}, {"unavailable", "active"}}
+	for _, o := range order {
+		key := fmt.Sprintf("device.handleOpenrgb/layer-order(%s<%s)", o[0], o[1])
+		if len(byClass[o[0]]) == 0 || len(byClass[o[1]]) == 0 {
+			continue
+		}
+		bad := ""
+		for _, a := range byClass[o[0]] {
+			for _, b := range byClass[o[1]] {
+				if !before(a.at, b.at) {
+					bad = fmt.Sprintf("the %s colour (written at %s) is not painted strictly before the %s colour (written at %s): which of the two a key finally shows no longer follows the layer, e.g. a pitch sounding on the current channel and on another one shows the wrong colour", o[0], a.pos, o[1], b.pos)
+				}
+			}
+		}
+		c.Check(bad == "", rule, key, pos, "every "+o[0]+" write precedes every "+o[1]+" write in the refresh loop body", bad)
+	}
+	// everything is painted before the frame is sent
+	bad := ""
+	for _, s := range sites {
+		if !before(s.at, upd.Block()) && s.at != upd.Block() {
+			bad = "an LED is written after the frame was sent (at " + s.pos + ")"
+		}
+	}
+	c.Check(bad == "", rule, "device.handleOpenrgb/paint-before-send", pos, fmt.Sprintf("%d write site(s), all before UpdateLEDs", len(sites)), bad)
+}
+
+// fieldLoadOfAny: v is a direct load of some struct field (used to tell a local colour table from a Device field).
+func fieldLoadOfAny(v ssa.Value) ssa.Instruction {
+	if u, ok := v.(*ssa.UnOp); ok && u.Op == token.MUL {
+		if _, isFA := u.X.(*ssa.FieldAddr); isFA {
+			return u
+		}
+	}
+	return nil
 }
